@@ -98,4 +98,41 @@ theorem C16_short_circuit (info : Bytes) (req : Req) :
     decorateUnary (dShort 0) (generated info appEcho) req (some tPass)
       = ([.transport info req, .decor 0 info req], 99) := rfl
 
+/-- regenerated from intercept.go: after its identity test `WithInterceptor` always stacks a new view holding exactly the
+    interceptors it was given, and a view registers `InterceptServer(desc, its own interceptors)` with the registry below -/
+theorem C16_registry_view_facts :
+    Gen.registryViewRest = "return &interceptingRegistry{reg: reg, unaryInt: unaryInt, streamInt: streamInt}" ∧
+    Gen.registryViewRegister = "{ r.reg.RegisterService(InterceptServer(desc, r.unaryInt, r.streamInt), srv) }" ∧
+    (Gen.registryIdentityCond == "&&") = true := by decide
+
+/-- **Nested registry views decorate like nested `InterceptServer` calls**: whatever interceptors (nil or not) the view
+    next to the registry holds, a second view on top of it contributes its own unary interceptor — it is never dropped
+    or merged away — and the view next to the registry is the outermost decoration. -/
+theorem C16_nested_views_unary (u0 u1 : UInt) (s0 s1 : Option SInt) (h : MethodHandler) :
+    (withInterceptor (withInterceptor .base (some u1) s1) (some u0) s0).registerUnary h
+      = decorateUnary u1 (decorateUnary u0 h) ∧
+    (withInterceptor (withInterceptor .base none s1) (some u0) s0).registerUnary h
+      = decorateUnary u0 h := by
+  have hc : (Gen.registryIdentityCond == "&&") = true := by decide
+  constructor
+  · simp [withInterceptor, hc, Reg.registerUnary]
+  · cases s1 <;> simp [withInterceptor, hc, Reg.registerUnary]
+
+/-- the same for streams -/
+theorem C16_nested_views_stream (s0 s1 : SInt) (u0 u1 : Option UInt) (info : StreamInfo) (h : SHandler) :
+    (withInterceptor (withInterceptor .base u1 (some s1)) u0 (some s0)).registerStream info h
+      = decorateStream s1 info (decorateStream s0 info h) := by
+  have hc : (Gen.registryIdentityCond == "&&") = true := by decide
+  cases u0 <;> cases u1 <;> simp [withInterceptor, hc, Reg.registerStream]
+
+/-- instance (the shape seeded change C16-m8 broke): the view next to the registry intercepts unary calls only, the one on
+    top both kinds; a unary call logs transport, inner view, outer view, handler -/
+example (info : Bytes) (req : Req) (s0 : SInt) :
+    (withInterceptor (withInterceptor .base (some (dPass 1)) none) (some (dPass 0)) (some s0)).registerUnary
+        (generated info appEcho) req (some tPass)
+      = ([.transport info req, .decor 1 info req, .decor 0 info req, .app req], req) := by
+  have hc : (Gen.registryIdentityCond == "&&") = true := by decide
+  simp [withInterceptor, hc, Reg.registerUnary]
+  rfl
+
 end InterceptServer
